@@ -143,7 +143,18 @@ def make_watch_cases(tier, seed):
             n = rng.choice(FILE_NAMES)
             nb = name_bytes(n)
             p = d + [n]
-            kindop = rng.choice(["create", "create", "modify", "delete", "rename", "mvdir"])
+            kindop = rng.choice(["create", "create", "modify", "delete", "rename", "mvdir", "mkzinoma"])
+            if kindop == "mkzinoma":
+                # zinoma's own work directory appearing below a watched path (first state write of a nested project)
+                k2 = len(ops)
+                dd = ["src", "sub", "nest%d" % k2]
+                ops.append({"op": "mkdir", "path": {"segs": dd}})
+                mops.append({"kind": "mkdir", "p": dd, "to": [], "check": False})
+                ops.append({"op": "mkdir", "path": {"segs": dd + [".zinoma"]}})
+                mops.append({"kind": "mkdir", "p": dd + [".zinoma"], "to": [], "check": True})
+                ops.append({"op": "create", "path": {"segs": dd + [".zinoma", "t.checksums"]}})
+                mops.append({"kind": "create", "p": dd + [".zinoma", "t.checksums"], "to": [], "check": True})
+                continue
             if kindop == "mvdir":
                 # a populated directory moved into the watched tree: one event, on the directory
                 k2 = len(ops)
